@@ -59,7 +59,11 @@ def main(run):
     run.prove("eval_one[n=3,limit=2,uncached,linf]", E.sc_eval_one, {"n": 3, "limit": 2, "computer": "superadditive", "gap": "linf_norm"}, pkg=pkg)
     run.prove_parallel("eval_one[n=4,limit=2]", E.sc_eval_one, {"n": 4, "limit": 2, "gap": "l1_norm"}, pkg=pkg)
     run.prove_parallel("evaluate[n=3,limit=2,reps=2]", E.sc_evaluate, {"n": 3, "limit": 2, "repetitions": 2}, pkg=pkg)
+    # both result matrices in every square / non-square shape: (limit+1) x reps and limit x reps
+    run.prove_parallel("evaluate[n=3,limit=1,reps=2]", E.sc_evaluate, {"n": 3, "limit": 1, "repetitions": 2}, pkg=pkg)
+    run.prove_parallel("evaluate[n=3,limit=1,reps=1]", E.sc_evaluate, {"n": 3, "limit": 1, "repetitions": 1}, pkg=pkg)
     if not quick:
+        run.prove_parallel("evaluate[n=3,limit=2,reps=3]", E.sc_evaluate, {"n": 3, "limit": 2, "repetitions": 3}, pkg=pkg)
         run.prove_parallel("evaluate[n=3,limit=3,reps=2]", E.sc_evaluate, {"n": 3, "limit": 3, "repetitions": 2}, pkg=pkg)
         run.prove_parallel("eval_one[n=4,limit=3]", E.sc_eval_one, {"n": 4, "limit": 3}, pkg=pkg)
     run.discharge()
